@@ -154,3 +154,16 @@ func solveE(reason string, d, k *big.Int) []byte {
 	e.Mod(e, ref.SM2N)
 	return ref.Pad32(e)
 }
+
+// smallValue returns a value in [1, 2^(256-8z)) for z leading zero bytes, z biased to
+// the classes where fixed-width encodings go wrong (1..3, one machine word, several
+// words, almost all).
+func smallValue(r *core.Rand) *big.Int {
+	z := r.PickInt(1, 1, 2, 3, 3, 7, 8, 9, 12, 15, 16, 17, 24, 30, 31)
+	v := ref.Int(r.Bytes(32))
+	v.Rsh(v, uint(8*z))
+	if v.Sign() == 0 {
+		v.SetInt64(1)
+	}
+	return v
+}
